@@ -166,6 +166,16 @@ def eval_inv(I, loop, entry_heap, frame, i, seq, tr_entry, mode="assume"):
     spec.tr, spec.trlen, spec.tr_old_len = ctx.tr, ctx.trlen, tr_entry
     if seq is not None:
         spec.seq = spec.view(seq, spec.new_heap)
+    missing = [nm for nm in loop.local_types if nm not in frame.locals]
+    if missing:
+        # a local the loop body assigns but that is not bound yet (before the first iteration): an arbitrary value of its shape
+        cache = ctx.ghost.setdefault(("unbound-locals", id(loop)), {})
+        extra = {}
+        for nm in missing:
+            if nm not in cache:
+                cache[nm] = ctx.typed(fresh_val("unbound_" + nm), loop.local_types[nm])
+            extra[nm] = cache[nm]
+        frame = types.SimpleNamespace(locals={**extra, **frame.locals})
     L = Locals(spec, frame, spec.new_heap)
     r = loop.inv(spec, L, i)
     if isinstance(r, dict):
@@ -432,6 +442,10 @@ def _single_gen(I, g):
     fr.cls_ctx = g.frame.cls_ctx
     seq = I.eval(fr, gen.iter)
     seq = I.ctx.from_val(seq) if isinstance(seq, SV) else seq
+    from . import setsum as _ss
+
+    if _ss.is_set(seq):
+        seq = _ss.enumeration(I, _ss.mem_of(I.ctx, seq), seq.ty.elem, "list", "generator over a set")
     if not (isinstance(seq, SV) and isinstance(seq.ty, TSeq)):
         raise Unsupported("generator over %r" % (seq,))
     return gen, fr, seq
@@ -459,6 +473,10 @@ def symbolic_sum(I, it, start):
     if not isinstance(it, GenExpT()):
         raise Unsupported("sum() over %r" % (it,))
     gen, fr, seq = _single_gen(I, it)
+    from . import setsum
+
+    if setsum.enum_of(ctx, seq) is not None:
+        return setsum.sum_over(I, it, start, gen, fr, seq)
     if gen.ifs:
         raise Unsupported("filtered sum over a sequence of unknown length")
     n = z3.Select(ctx.field_array("$len"), ctx.ref_id(seq))
@@ -548,6 +566,12 @@ def symbolic_all_any(I, it, is_all):
 def symbolic_comprehension(I, g, kind):
     """{f(x) for x in seq} over a heap sequence: a set given by its membership predicate (pure element expression)"""
     ctx = I.ctx
+    if kind == "list":
+        from . import setsum
+
+        gen, fr, seq = _single_gen(I, g)
+        if setsum.enum_of(ctx, seq) is not None:
+            return setsum.filtered_enum(I, g, gen, fr, seq)
     if kind != "set":
         raise Unsupported("%s comprehension over a sequence of unknown length" % kind)
     gen, fr, seq = _single_gen(I, g)
@@ -579,6 +603,10 @@ def symbolic_comprehension(I, g, kind):
 def copy_seq(I, v, kind):
     """list(seq) / tuple(seq): a fresh sequence object with the same items"""
     ctx = I.ctx
+    from . import setsum
+
+    if setsum.is_set(v):
+        return setsum.enumeration(I, setsum.mem_of(ctx, v), v.ty.elem, kind, "list(set)")
     if not (isinstance(v, SV) and isinstance(v.ty, TSeq)):
         raise Unsupported("list() of %r" % (v,))
     new = ctx.alloc(None, TSeq(v.ty.elem, kind))
